@@ -727,6 +727,19 @@ class Drillhole(Points):
 
         return attributes, property_group
 
+    def remove_children(self, children):
+        """
+        Extension of :func:`~geoh5py.objects.object_base.ObjectBase.remove_children`:
+        forget the depth data when it is removed.
+        """
+        if not isinstance(children, list):
+            children = [children]
+
+        if any(child is self._depths for child in children):
+            self._depths = None
+
+        super().remove_children(children)
+
     def sort_depths(self):
         """
         Read the 'DEPTH' data and sort all Data.values if needed
